@@ -20,10 +20,11 @@ for i in 0 1 2 3 4 5; do
   ( cd k && cargo kani --target-dir ../.build/k-t$i -Z stubbing --only-codegen >/dev/null 2>&1 ) &
 done
 wait
-for i in 0 1 2 3 4 5; do
+for i in 0 1 2 3 4; do
   ( cd s/harness && cargo kani --target-dir ../../.build/s-t$i -Z stubbing --only-codegen >/dev/null 2>&1 ) &
 done
 ( cd s/harness && CARGO_TARGET_DIR=../../.build/sreplay-target cargo build --offline --bin sreplay >/dev/null 2>&1 ) &
+( cd "$REPO" && CARGO_TARGET_DIR=$V/.build/mir/sqlite/target cargo +nightly rustc --offline -p taskchampion-sync-server-storage-sqlite --lib -- -Zunpretty=mir >/dev/null 2>&1 ) &
 ( cd "$REPO" && CARGO_TARGET_DIR=$V/.build/mir/server/target cargo +nightly rustc --offline -p taskchampion-sync-server --lib -- -Zunpretty=mir >/dev/null 2>&1 ) &
 ( cd "$REPO" && CARGO_TARGET_DIR=$V/.build/mir/dev/target cargo +nightly rustc --offline -p taskchampion-sync-server-core --lib -- -Zunpretty=mir >/dev/null 2>&1;
   CARGO_TARGET_DIR=$V/.build/mir/release/target cargo +nightly rustc --offline -p taskchampion-sync-server-core --lib -- -Zunpretty=mir >/dev/null 2>&1 ) &
